@@ -2,6 +2,7 @@ package absint
 
 import (
 	"fmt"
+	"go/ast"
 	"go/token"
 	"go/types"
 	"math/big"
@@ -158,7 +159,9 @@ func (d *FieldDom) fnAtomName(fn string, args ...*FE) string {
 
 func (d *FieldDom) Fn(fn string, args ...*FE) *FE { return d.Var(d.fnAtomName(fn, args...)) }
 
-func (d *FieldDom) BitFn(fn string, args ...*FE) *poly.Poly { return d.R.BitVar(d.fnAtomName(fn, args...)) }
+func (d *FieldDom) BitFn(fn string, args ...*FE) *poly.Poly {
+	return d.R.BitVar(d.fnAtomName(fn, args...))
+}
 
 // AtomArgs returns the arguments an atom was created with.
 func (d *FieldDom) AtomArgs(name string) (string, []*FE) {
@@ -312,6 +315,17 @@ func (d *FieldDom) Branch(in *Interp, cond Val, site *ssa.If) (bool, bool, bool)
 	if c, ok := b.P.IsConst(); ok {
 		return c.Sign() != 0, true, false
 	}
+	// a condition already decided on this path (or its complement) is not a new fork
+	for _, l := range d.Path {
+		if l.P.Equal(b.P) {
+			return l.Truth, true, false
+		}
+		if s := l.P.Add(b.P); s != nil {
+			if c, ok := s.IsConst(); ok && c.Cmp(big.NewInt(1)) == 0 {
+				return !l.Truth, true, false
+			}
+		}
+	}
 	return false, false, true
 }
 
@@ -363,7 +377,12 @@ func (d *FieldDom) Call(in *Interp, site ssa.Instruction, fn *ssa.Function, args
 	}
 	recv := fn.Signature.Recv()
 	if recv == nil || !strings.HasPrefix(name, "field.(*Element).") {
-		in.Undecided(site, "call of %s from element mode", name)
+		// a helper of package field that is not an Element method the domain knows: interpret its body; it is
+		// meaningful here as long as it only combines Elements through their methods (touching limbs is undecided)
+		if len(fn.Blocks) == 0 {
+			in.Undecided(site, "call of %s (no body) from element mode", name)
+		}
+		return nil, false
 	}
 	get := func(i int) *FE { return d.loadFE(in, site, args[i]) }
 	put := func(v *FE) []Val { in.Store(site, args[0], v); return []Val{args[0]} }
@@ -480,6 +499,10 @@ func (d *FieldDom) Call(in *Interp, site ssa.Instruction, fn *ssa.Function, args
 		obj := in.NewObject("Bytes()", types.NewArray(u8, 32), arr)
 		return []Val{SliceV{Obj: obj, Len: 32, Cap: 32}}, true
 	}
+	if len(fn.Blocks) > 0 && !ast.IsExported(fn.Name()) {
+		// an unexported Element method the domain has no transfer function for: interpret its body (see above)
+		return nil, false
+	}
 	in.Undecided(site, "field primitive %s has no algebraic transfer function in E9", name)
 	return nil, false
 }
@@ -586,12 +609,14 @@ func ElementLiterals(p *load.Program) map[string]*big.Int {
 
 // ---- helpers for drivers ----------------------------------------------------------------
 
+// FieldIndex resolves a (canonical) field name of a struct type; -1 if there is none.
+func FieldIndex(t types.Type, name string) int { return load.FieldIndex(t, name) }
+
 // StructVal builds an aggregate for a struct type from named field values.
 func (in *Interp) StructVal(t types.Type, fields map[string]Val) Val {
-	st := t.Underlying().(*types.Struct)
 	a := in.Zero(t).(*Agg)
-	for i := 0; i < st.NumFields(); i++ {
-		if v, ok := fields[st.Field(i).Name()]; ok {
+	for name, v := range fields {
+		if i := FieldIndex(t, name); i >= 0 {
 			a.Elems[i] = v
 		}
 	}
@@ -600,11 +625,8 @@ func (in *Interp) StructVal(t types.Type, fields map[string]Val) Val {
 
 // FieldOf reads a named field from a struct object.
 func (in *Interp) FieldOf(o *Object, name string) Val {
-	st := o.Type.Underlying().(*types.Struct)
-	for i := 0; i < st.NumFields(); i++ {
-		if st.Field(i).Name() == name {
-			return o.Val.(*Agg).Elems[i]
-		}
+	if i := FieldIndex(o.Type, name); i >= 0 {
+		return o.Val.(*Agg).Elems[i]
 	}
 	return nil
 }
